@@ -25,7 +25,7 @@ ASSUMPTIONS = [
 
 @st.composite
 def _case(draw, tier):
-    nmax = 5 if tier == "quick" else 8
+    nmax = draw(st.sampled_from([5, 5, 5, 5, 5, 6, 7, 8])) if tier == "quick" else 8
     sz = dict(max_spikes=6 if tier == "quick" else 16)
     g = draw(gen.int_train_lists(2, nmax, related=draw(st.sampled_from([False, True])), **sz))
     c = gen.to_times(g)
@@ -59,7 +59,7 @@ def _enum(tier, shard, nshards):
 
 
 PHASES = [
-    HypPhase("dyadic", _case, dict(quick=2500, thorough=30000)),
+    HypPhase("dyadic", _case, dict(quick=4000, thorough=30000)),
     EnumPhase("grid4x3", _enum,
               lambda tier: "all ordered triples of subsets of {0..4} on [0,4], measure "
                            "cycling ISI/SPIKE/SYNC, permutation [2,0,1], indices [2,0]"),
